@@ -19,6 +19,7 @@ func init() {
 			"R08.2 also: the selection clauses of NegotiateContentType (the negotiated type is its result); R08.5 also: only the authenticators of package security overwrite a request in place, so the realm marker reaches Respond. " +
 			"R08.2 also: the matching forms of NegotiateContentType (exact = equality with the normalised offer, type/* = prefix keeping the slash); R08.5 also: with the failed-basic-auth marker present the challenge is set for every error class. " +
 			"R08.2 also: once set from the negotiated format, Content-Type is never deleted or replaced by Respond. " +
+			"R08.1 also: a producer table built for the negotiated format is built from the list handed to the negotiation. " +
 			"NOT decided: the bytes a producer writes; the negotiated value itself (C07).",
 		Run: runC08,
 	})
